@@ -1,0 +1,47 @@
+//go:build verif
+
+package state
+
+import (
+	"github.com/youchainhq/go-youchain/common"
+	"github.com/youchainhq/go-youchain/trie"
+)
+
+// Read-only accessors for the C10 verification harness (commit / reopen / copy equivalence).
+// Compiled only with the build tag `verif`.
+
+// VerifC10Delegations returns a copy of the delegation list of a live account and whether the
+// account exists (getStateObject semantics: deleted objects do not exist).
+func (st *StateDB) VerifC10Delegations(addr common.Address) ([]common.Address, bool) {
+	o := st.getStateObject(addr)
+	if o == nil {
+		return nil, false
+	}
+	var out []common.Address
+	for _, a := range o.Delegations() {
+		out = append(out, a)
+	}
+	return out, true
+}
+
+// VerifC10Leaf is one leaf of a secure trie: the key preimage when known (else nil), the hashed key, the value.
+type VerifC10Leaf struct {
+	Key, HashedKey, Value []byte
+}
+
+func verifC10Leaves(t Trie) []VerifC10Leaf {
+	var out []VerifC10Leaf
+	if t == nil {
+		return out
+	}
+	it := trie.NewIterator(t.NodeIterator(nil))
+	for it.Next() {
+		out = append(out, VerifC10Leaf{Key: common.CopyBytes(t.GetKey(it.Key)), HashedKey: common.CopyBytes(it.Key), Value: common.CopyBytes(it.Value)})
+	}
+	return out
+}
+
+// VerifC10Leaves enumerates the leaves of the three in-memory tries as they are now (nothing is flushed).
+func (st *StateDB) VerifC10Leaves() (acct, val, stk []VerifC10Leaf) {
+	return verifC10Leaves(st.trie), verifC10Leaves(st.valTrie), verifC10Leaves(st.stakingTrie)
+}
